@@ -401,6 +401,20 @@ def judge(ctx, idx, case):
             continue
         eq = compare(ctx, "preserving.%s" % kind, d, v, problems)
         ctx.count("variant.%s.%s" % (kind, "equivalent" if eq else "NOT-equivalent"))
+        if not eq:
+            # the quantifier lists these transformations as content preserving: a variant that is not equivalent is a violation
+            # (== then rightly says "different", which is why compare() alone stays silent)
+            def rejudge(c, kind=kind):
+                d2 = interp.run(c["ops"]).doc
+                v2 = variant_preserving(kind, strict.ordered(d2), d2, random.Random(c["seed"]))
+                return [] if content(d2) == content(v2) else ["still different"]
+            from pv import findings
+            fid = findings.attribute(ID, case, rejudge) if kind == "json_roundtrip" else None
+            if fid:
+                ctx.known_finding(fid, "d != d after a PROV-JSON round trip", {"idx": idx})
+            else:
+                problems.append({"pair": "preserving.%s" % kind, "problem": "the content-preserving transformation '%s' gives a document that is not "
+                                 "content-equivalent to d (and == says so)" % kind, "diff": strict.diff(strict.strict(d), strict.strict(v), 4)})
         variants.append(v)
         compare_records(ctx, d, v, r, problems)
     if len(variants) == 2:
